@@ -900,6 +900,26 @@ impl Real {
                             });
                             if an.id() != 0 {
                                 attr_nodes.push(an);
+                            } else {
+                                // an attribute present through a DTD default: its value pieces are its children
+                                let pieces: Vec<XmlNode> = an.child_nodes().iter().collect();
+                                for c in pieces {
+                                    let ok = matches!(c.parent_node(), Some(XmlNode::Attribute(ref p)) if p.name() == a.name());
+                                    if !ok {
+                                        fails.push(Fail::new(
+                                            "C12",
+                                            "defaulted_attr_child_parent",
+                                            format!(
+                                                "the value piece {:?} listed in child_nodes of the defaulted attribute {} of {} reports parent {}",
+                                                c.node_value().ok().flatten().unwrap_or_default(),
+                                                a.name(),
+                                                key,
+                                                c.parent_node().map(|p| format!("{:?} #{}", p.node_type(), p.id())).unwrap_or("none".into())
+                                            ),
+                                        ));
+                                        break;
+                                    }
+                                }
                             }
                         }
                     }
